@@ -448,6 +448,7 @@ where
             .map(|(key, _)| Rc::clone(key))
             .collect::<Vec<_>>();
 
+        let mut invalidated_count = 0u64;
         let mut invalidated = 0u64;
 
         keys_to_invalidate.into_iter().for_each(|k| {
@@ -455,9 +456,11 @@ where
                 let weight = entry.policy_weight();
                 deques.unlink_ao(&mut entry);
                 Deques::unlink_wo(&mut deques.write_order, &mut entry);
-                invalidated = invalidated.saturating_sub(weight as u64);
+                invalidated_count += 1;
+                invalidated = invalidated.saturating_add(weight as u64);
             }
         });
+        self.entry_count -= invalidated_count;
         self.saturating_sub_from_total_weight(invalidated);
     }
 
